@@ -317,6 +317,20 @@ def shifted (g dgt : List α) (voa x : α) : List α := (g.zip dgt).map (fun p =
 /-- the flat branch: `g1st - voa` -/
 def flatProfile (g : List α) (eff : α) : List α := g.map (fun x => x - voaOf g eff)
 
+/-- the one secant step of `_gain_profile` on the average-gain function `A` (average gain as a function of the
+DGT scale `x`): centre, lower and upper estimates, two slopes, one correction towards `eff` -/
+def secantStep (A : α → α) (eff xcent deltax : α) : α :=
+  let gavgCent := A xcent
+  let xlow := xcent - deltax
+  let gavgLow := A xlow
+  let xhigh := xcent + deltax
+  let gavgHigh := A xhigh
+  let slope1 := (gavgLow - gavgCent) / (xlow - xcent)
+  let slope2 := (gavgCent - gavgHigh) / (xcent - xhigh)
+  if Transc.abs (eff - gavgCent) ≤ cTol then xcent
+  else if eff < gavgCent then xcent - (gavgCent - eff) / slope1
+  else xcent + (-gavgCent + eff) / slope2
+
 /-- `Edfa._gain_profile(pin)`; second component: distance of `deltax` to the `0.05` threshold -/
 def gainProfile (freqs dgt ripple pin : List α) (eff gainFlatmax tilt fmin fmax pinDb : α) : List α × α :=
   if dgt.length = 1 then ([eff], ((1:Nat) : α))
@@ -328,23 +342,12 @@ def gainProfile (freqs dgt ripple pin : List α) (eff gainFlatmax tilt fmin fmax
     let voa := voaOf g1 eff
     let g2nd := g1.map (fun x => x - voa)
     let dgts2 := eff - avgGain pin g2nd pinDb
-    let xcent := dgts2
-    let gavgCent := avgGain pin (shifted g1 dgt voa xcent) pinDb
     let deltax := maxL g1 - minL g1
     let margin := Transc.abs (Transc.abs deltax - c005)
     if Transc.abs deltax ≤ c005 then (g2nd, margin)
     else
-      let xlow := dgts2 - deltax
-      let gavgLow := avgGain pin (shifted g1 dgt voa xlow) pinDb
-      let xhigh := dgts2 + deltax
-      let gavgHigh := avgGain pin (shifted g1 dgt voa xhigh) pinDb
-      let slope1 := (gavgLow - gavgCent) / (xlow - xcent)
-      let slope2 := (gavgCent - gavgHigh) / (xcent - xhigh)
-      let dgts3 :=
-        if Transc.abs (eff - gavgCent) ≤ cTol then xcent
-        else if eff < gavgCent then xcent - (gavgCent - eff) / slope1
-        else xcent + (-gavgCent + eff) / slope2
-      (shifted g1 dgt voa dgts3, margin)
+      (shifted g1 dgt voa
+        (secantStep (fun x => avgGain pin (shifted g1 dgt voa x) pinDb) eff dgts2 deltax), margin)
 
 /-! ### the whole crossing (`__call__` → `propagate` → `interpol_params`) -/
 
